@@ -226,7 +226,10 @@ def run_infinite(spec):
         require(abs(EH - Eb) <= 1e-8, 'infinite-energy-representations', 'MPO %r vs bonds %r' % (EH, Eb), **tags)
         require(EH >= e_exact - 1e-9, 'below-ground-state', '<H> per site = %r < exact %r' % (EH, e_exact), **tags)
         err = float(np.max(eng.trunc_err_list)) if len(eng.trunc_err_list) else 0.
-        tol = max(1e-7, 10 * nt, 100 * err)
+        # E_run of iDMRG is an estimate from the growth of the total energy: accurate up to the convergence reached
+        dE = abs(eng.sweep_stats['Delta_E'][-1]) if len(eng.sweep_stats.get('Delta_E', [])) else 0.
+        ne = abs(eng.sweep_stats['norm_err'][-1]) if len(eng.sweep_stats.get('norm_err', [])) else 0.  # reported error of the canonical form
+        tol = max(1e-7, 10 * nt, 10 * ne, 100 * err, 100 * dE * spec['N_sweeps_check'])
         require(abs(E - EH) <= tol, 'energy-mismatch', 'E_run = %r, <H> of the returned state = %r (norm_test %r, trunc_err %r, %d sweeps)' % (E, EH, nt, err, eng.sweeps), **tags)
         require(E >= e_exact - tol, 'E_run-below-ground-state', 'E_run = %r < exact %r' % (E, e_exact), **tags)
         # convergence of the gapped chain (validated class)
